@@ -487,4 +487,83 @@ theorem extractWith_total {g : Grammar} {d : Dispatch} {t : Cel} (ht : Conf g t)
   obtain ⟨s, hs, rfl⟩ := List.mem_map.1 hr
   exact visit_ok F (subtrees_conf t ht s hs)
 
+/-! ## a checker for (helper-free) conformance, to exhibit concrete grammatical trees -/
+
+mutual
+def confB (g : Grammar) : Cel → Bool
+  | .node k cs => (alts g k).any (fun rhs => matchB g (visible rhs) cs)
+  | .tok .. => false
+def matchB (g : Grammar) : List Sym → List Cel → Bool
+  | [], [] => true
+  | .nt k :: ss, .node k' kids :: cs => k == k' && confB g (.node k' kids) && matchB g ss cs
+  | .tk t :: ss, .tok t' s :: cs => t == t' && s != "" && matchB g ss cs
+  | _, _ => false
+end
+
+theorem yield_of_matches {g : Grammar} : ∀ (rhs : List Sym) (cs : List Cel),
+    Matches g (visible rhs) cs → Yield g rhs cs
+  | [], cs, h => by
+    cases cs with
+    | nil => exact .nil
+    | cons => simp [visible, Matches] at h
+  | .anon :: rest, cs, h => .anon (yield_of_matches rest cs (by simpa [visible] using h))
+  | .nt k :: rest, cs, h => by
+    cases cs with
+    | nil => simp [visible, Matches] at h
+    | cons c cs =>
+      simp only [visible, Matches, MatchSym] at h
+      obtain ⟨⟨kids, rfl, hc⟩, hm⟩ := h
+      exact .nt hc (yield_of_matches rest cs hm)
+  | .tk t :: rest, cs, h => by
+    cases cs with
+    | nil => simp [visible, Matches] at h
+    | cons c cs =>
+      simp only [visible, Matches, MatchSym] at h
+      obtain ⟨⟨s, rfl, hs⟩, hm⟩ := h
+      exact .tk hs (yield_of_matches rest cs hm)
+  | .inl n :: rest, cs, h => by
+    cases cs <;> simp [visible, Matches, MatchSym] at h
+
+mutual
+theorem confB_sound {g : Grammar} : ∀ (t : Cel), confB g t = true → Conf g t
+  | .tok .., h => by simp [confB] at h
+  | .node k cs, h => by
+    simp only [confB, List.any_eq_true] at h
+    obtain ⟨rhs, hr, hm⟩ := h
+    have hy := yield_of_matches rhs cs (matchB_sound cs (visible rhs) hm)
+    unfold alts at hr
+    obtain ⟨r, hrf, rfl⟩ := List.mem_map.1 hr
+    obtain ⟨hrg, ho⟩ := List.mem_filter.1 hrf
+    have : r = ⟨.rule k, r.rhs⟩ := by
+      cases r; simp only [beq_iff_eq] at ho; simp [ho]
+    rw [this] at hrg
+    exact .node hrg hy
+theorem matchB_sound {g : Grammar} : ∀ (cs : List Cel) (vis : List Sym), matchB g vis cs = true → Matches g vis cs
+  | [], vis, h => by
+    cases vis with
+    | nil => trivial
+    | cons s ss => cases s <;> simp [matchB] at h
+  | c :: cs, vis, h => by
+    cases vis with
+    | nil => simp [matchB] at h
+    | cons s ss =>
+      cases s with
+      | nt k =>
+        cases c with
+        | tok t s' => simp [matchB] at h
+        | node k' kids =>
+          simp only [matchB, Bool.and_eq_true, beq_iff_eq] at h
+          obtain ⟨⟨rfl, hc⟩, hm⟩ := h
+          exact ⟨⟨kids, rfl, confB_sound _ hc⟩, matchB_sound cs ss hm⟩
+      | tk t =>
+        cases c with
+        | node k' kids => simp [matchB] at h
+        | tok t' s' =>
+          simp only [matchB, Bool.and_eq_true, beq_iff_eq, bne_iff_ne, ne_eq] at h
+          obtain ⟨⟨rfl, hs⟩, hm⟩ := h
+          exact ⟨⟨s', rfl, hs⟩, matchB_sound cs ss hm⟩
+      | anon => simp [matchB] at h
+      | inl n => simp [matchB] at h
+end
+
 end Koreo.CelAst
